@@ -174,9 +174,6 @@ Hypothesis Htc : forall s c, tchild V n2 s c = tchild V n0 s c.
 Hypothesis RF : Refines V n2 sts idmap.
 Hypothesis Hnode2 : forall t, node V n2 t <-> exists w, N0 V n0 w t.
 Hypothesis Hlab2 : forall s c t, node V n2 s -> tchild V n2 s c = Some t -> c < 256.
-Hypothesis Hget2 : forall s w, N0 V n0 w s -> exists st, nfa_get V n2 s = Ok st /\ n_fail st = failof V n2 s /\ n_outpos st = outposof V n2 s.
-Hypothesis Hfail2 : forall w t, N0 V n0 w t -> N0 V n0 (Cert.lsuf (child0 V n0) (tl w)) (failof V n2 t).
-Hypothesis Hout2 : forall w t, N0 V n0 w t -> OutOK V lb1 n0 pvs n2 t.
 Hypothesis Hne : forall p v, In (p, v) pvs -> p <> [].
 Hypothesis EKc : forall i st, nget i (n_states n0) = Some st -> NoDup (map fst (n_edges st)).
 
@@ -290,6 +287,10 @@ Proof.
   - intros x Hx. apply in_map_iff in Hx as [s [<- Hs]]. destruct (rf_tot _ _ _ _ RF s (Hn s Hs)) as (i & Hi & Hlt & _).
     unfold f. rewrite Hi. apply in_seq. lia.
 Qed.
+
+Hypothesis Hget2 : forall s w, N0 V n0 w s -> exists st, nfa_get V n2 s = Ok st /\ n_fail st = failof V n2 s /\ n_outpos st = outposof V n2 s.
+Hypothesis Hfail2 : forall w t, N0 V n0 w t -> N0 V n0 (Cert.lsuf (child0 V n0) (tl w)) (failof V n2 t).
+Hypothesis Hout2 : forall w t, N0 V n0 w t -> OutOK V lb1 n0 pvs n2 t.
 
 Lemma nseq_in_c : forall k a x, In x (nseq a k) -> a <= x < a + N.of_nat k.
 Proof. induction k as [|k IH]; intros a x; cbn [nseq]; [intros []|]. intros [<-|H]; [lia|]. apply IH in H. lia. Qed.
@@ -409,10 +410,10 @@ Proof.
     assert (Hin : In (c, t) (edges_of V n2 s)).
     { eapply tf_edges_child; try eassumption; exact one_pos. }
     eapply tf_labels; eassumption.
+  - exact Hne.
+  - exact EK0.
   - intros s w Hw. pose proof (N0_lt V _ one_pos n0 pvs paths T0 w s Hw) as Hl. destruct (Hst s Hl) as (st & _ & H2 & _).
     exists st. unfold nfa_get, failof, outposof. rewrite Hns. apply N.ltb_lt in Hl. rewrite Hl, H2. auto.
   - exact Hfail.
   - exact Hoks.
-  - exact Hne.
-  - exact EK0.
 Qed.
